@@ -182,20 +182,25 @@ theorem sinv_insertHugr (s s' b : Store Ω μ) (hs : SInv s) (hb : SInv b) (pare
     (mp : Dict Nat Nat) (h : insertHugr s b parent = .ok (s', mp)) : SInv s' := by
   unfold insertHugr at h
   simp only [bind, Except.bind] at h
-  split at h
-  · cases h
-  · rename_i r hr
-    obtain ⟨s1, mp1⟩ := r
-    simp only [] at h
-    split at h
-    · cases h
-    · rename_i s2 h2
-      simp [pure, Except.pure] at h
-      obtain ⟨rfl, _⟩ := h
-      refine sinv_insertLinks mp1 b.links.fwd s1 s2 (sinv_insertNodes b parent _ s s1 [] mp1 hs hr) ?_ h2
-      intro e he
-      have hm : (e.1.port, e.2.port) ∈ linksList b := List.mem_map.mpr ⟨e, he, by cases e; rfl⟩
-      obtain ⟨⟨_, _, h1, _⟩, ⟨_, _, h2, _⟩⟩ := hb.bound _ hm
-      exact ⟨h1, h2⟩
+  cases ho : hierarchyOrder b with
+  | error e => simp [ho] at h
+  | ok order =>
+    simp only [ho] at h
+    cases hr : insertNodes s b parent order [] with
+    | error e => simp [hr] at h
+    | ok r =>
+      obtain ⟨s1, mp1⟩ := r
+      simp only [hr] at h
+      cases h2 : insertLinks s1 mp1 b.links.fwd with
+      | error e => simp [h2] at h
+      | ok s2 =>
+        simp only [h2, pure, Except.pure] at h
+        have hs2 : s2 = s' := by injection h with h; exact (Prod.mk.inj h).1
+        subst hs2
+        refine sinv_insertLinks mp1 b.links.fwd s1 s2 (sinv_insertNodes b parent _ s s1 [] mp1 hs hr) ?_ h2
+        intro e he
+        have hm : (e.1.port, e.2.port) ∈ linksList b := List.mem_map.mpr ⟨e, he, by cases e; rfl⟩
+        obtain ⟨⟨_, _, h1, _⟩, ⟨_, _, h2, _⟩⟩ := hb.bound _ hm
+        exact ⟨h1, h2⟩
 
 end HugrVerif.Store
